@@ -522,3 +522,24 @@ SPECS += [
          extra_params={"isFile": "Lean:(α → Bool)", "fsRemove": "Lean:(φ → α → Except Err φ)"}, ret="Unit",
          conds={"isinstance(d, str)": "(isFile d = true)"}, calls={"os.remove": FS_REMOVE}, props=["C10"]),
 ]
+
+
+# ---- adapters/time.py : the spill files of the time-caching / time-integration adapters (C10) -----------------------
+# (`_pack` is inherited from `Output`; eviction is up to the request time, `_unpack` re-wraps with the source's units)
+SPECS += [
+    dict(lean="TimeCachingAdapter__clear_cached_data_files", path="adapters/time.py", qual="TimeCachingAdapter._clear_cached_data",
+         group="Spill", type_params=["φ"], loop_extras=True,
+         fields={"data": "List[Tuple[Time,Val]]", "_total_mem": "Int", "fs": FS}, params={"time": "Time"},
+         extra_params=FS_PARAMS, ret="Unit", locals={"d": "Tuple[Time,Val]"},
+         conds={"isinstance(d[1], str)": "(isFile d.2 = true)"}, consts={"d[1].nbytes": ("(nbytes d.2)", "Int")},
+         calls={"os.remove": FS_REMOVE},
+         fuel={"len(self.data) > 1 and self.data[1][0] <= time": "len(self.data)"}, props=["C10"]),
+    dict(lean="TimeCachingAdapter__unpack", path="adapters/time.py", qual="TimeCachingAdapter._unpack", group="Spill", type_params=["φ"],
+         fields={"fs": FS}, params={"where": "Val"}, extra_params={"isFile": "Lean:(α → Bool)", "fsLoad": "Lean:(φ → α → Except Err α)"},
+         ret="Val", locals={"data": "Val"}, conds={"isinstance(where_, str)": "(isFile where_ = true)"},
+         calls={"np.load": {"lean": "fsLoad", "args": ["self.fs", 0], "ret": "Val"}, "dtools.UNITS.Quantity": "id"}, props=["C10"]),
+    dict(lean="TimeCachingAdapter__finalize", path="adapters/time.py", qual="TimeCachingAdapter._finalize", group="Spill",
+         type_params=["φ"], loop_extras=True, fields={"data": "List[Tuple[Time,Val]]", "fs": FS}, params={},
+         extra_params={"isFile": "Lean:(α → Bool)", "fsRemove": "Lean:(φ → α → Except Err φ)"}, ret="Unit",
+         conds={"isinstance(d, str)": "(isFile d = true)"}, calls={"os.remove": FS_REMOVE}, props=["C10"]),
+]
